@@ -270,6 +270,59 @@ def run_unit(args):
     return res
 
 
+def canary_unit(args):
+    """Vacuity guard (thorough tier): `assert(false)` is appended to every extracted handler body; it must
+    FAIL in every handler.  A handler in which it verifies has an unsatisfiable precondition (its obligations
+    would all be discharged vacuously)."""
+    name, cfg = args
+    res = {"unit": f"{name}.canary", "template": name, "cfg": cfg, "status": "ok", "vacuous": [], "handlers": 0}
+    try:
+        woven, meta = weave_mod.weave(name, cfg)
+    except Exception as e:
+        res.update(status="undecided", why=f"weave: {e}")
+        return res
+    lines = open(woven).read().split("\n")
+    out, marks = [], []
+    tail_body = False
+    for idx, l in enumerate(lines):
+        if "/* ---- extracted from" in l:
+            # a body whose value is the function result gets its canary in front of it
+            e = next(k for k in range(idx, len(lines)) if "/* ---- end of extracted body" in lines[k])
+            tail_body = "(its value is the result)" in lines[e]
+            if tail_body:
+                out.append("    assert(false); /* @canary */")
+                marks.append(len(out))
+        out.append(l)
+        if "/* ---- end of extracted body ---- */" in l and not tail_body:
+            out.append("    assert(false); /* @canary */")
+            marks.append(len(out))
+    path = woven[:-3] + "_canary.rs"
+    open(path, "w").write("\n".join(out))
+    p = sh(["verus", path, "--error-format=json", "--multiple-errors", "40"])
+    failed_lines = set()
+    if "verification results" not in p.stdout + p.stderr:
+        res.update(status="undecided", why="canary file did not verify at all: " + p.stderr[-400:])
+        return res
+    for l in p.stderr.split("\n"):
+        if l.startswith("{"):
+            try:
+                d = json.loads(l)
+            except Exception:
+                continue
+            if d.get("level") == "error":
+                for sp in d.get("spans", []):
+                    if sp.get("is_primary"):
+                        failed_lines.add(sp["line_start"])
+    res["handlers"] = len(marks)
+    okv = set(sum((x.split() for x in re.findall(r"^//@vacuous-ok[ \t]+(.+)$", open(os.path.join(VERIF, "contracts", name + ".rs")).read(), re.M)), []))
+    for mline in marks:
+        if mline not in failed_lines and enclosing_fn(out, mline) not in okv:
+            res["vacuous"].append(enclosing_fn(out, mline))
+    if res["vacuous"]:
+        res["status"] = "vacuous"
+    return res
+
+
 def pipe_unit():
     """C06: `pipe!` is plain left-to-right application.  rustc itself expands the real macro (text taken
     from /repo/src/pipe.rs) on symbolic identifiers for k = 1..6 stages; the expansion must be fk(..f1(s0)..)."""
@@ -337,7 +390,11 @@ def pipeline(tier):
     with cf.ThreadPoolExecutor(14) as ex:
         results = list(ex.map(run_unit, units))
     results.append(pipe_unit())
-    return {"tier": tier, "units": results, "t_expand_s": round(t_expand, 2), "wall_s": round(time.time() - t0, 2)}
+    canaries = []
+    if tier == "thorough":
+        with cf.ThreadPoolExecutor(14) as ex:
+            canaries = list(ex.map(canary_unit, [(n, "off") for n in templates(tier) if not re.search(r"^//@(pure|interfere)", open(os.path.join(VERIF, "contracts", n + ".rs")).read(), re.M)]))
+    return {"tier": tier, "units": results, "canaries": canaries, "t_expand_s": round(t_expand, 2), "wall_s": round(time.time() - t0, 2)}
 
 
 def get_results(tier):
@@ -372,10 +429,21 @@ SCENARIOS = {"take": ["take1", "take2", "take0"], "map": ["map"], "filter": ["fi
 
 
 def build_replay():
-    """(re)build the replay harness against /repo's current working tree"""
+    """(re)build the replay harness against the current working tree of the repository under check"""
     env = dict(os.environ, CARGO_NET_OFFLINE="true")
     env.pop("RUSTUP_TOOLCHAIN", None)
-    p = sh(["cargo", "build", "--release", "--offline", "--manifest-path", os.path.join(VERIF, "replay", "Cargo.toml"), "--target-dir", os.path.join(BUILD, "replay-target")], env=env)
+    manifest = os.path.join(VERIF, "replay", "Cargo.toml")
+    if REPO != "/repo":
+        # self-test on a scratch copy: same sources, dependency path redirected
+        d = os.path.join(BUILD, "replay-crate")
+        os.makedirs(os.path.join(d, "src"), exist_ok=True)
+        open(os.path.join(d, "Cargo.toml"), "w").write(open(manifest).read().replace('path = "/repo"', f'path = "{REPO}"'))
+        import shutil
+        shutil.copy(os.path.join(VERIF, "replay", "src", "main.rs"), os.path.join(d, "src", "main.rs"))
+        if os.path.exists(os.path.join(VERIF, "replay", "Cargo.lock")):
+            shutil.copy(os.path.join(VERIF, "replay", "Cargo.lock"), os.path.join(d, "Cargo.lock"))
+        manifest = os.path.join(d, "Cargo.toml")
+    p = sh(["cargo", "build", "--release", "--offline", "--manifest-path", manifest, "--target-dir", os.path.join(BUILD, "replay-target")], env=env)
     return p.returncode == 0
 
 
@@ -537,6 +605,11 @@ def main():
     t0 = time.time()
     res = get_results(a.tier)
     relevant, undecided, viol, known, _ = check_property(a.property, a.tier, res)
+    vac = [c for c in res.get("canaries", []) if c["status"] == "vacuous" and any(u["template"] == c["template"] for u in relevant)]
+    if vac:
+        for c in vac:
+            print(f"UNDECIDED unit={c['unit']}: vacuous precondition in {c['vacuous']} (the canary assert(false) verified)", file=sys.stderr)
+        sys.exit(2)
     if undecided:
         for u in undecided:
             print(f"UNDECIDED unit={u['unit']}: {u.get('why','')[:1500]}", file=sys.stderr)
